@@ -112,6 +112,9 @@ func (h vHandler) Handle(_ context.Context, item any) error {
 func VerifHydro(arg string) {
 	nops := vParam(arg, "ops", 3)
 	store := &vKV{data: map[string][]byte{}}
+	// the log file may already have handed out ids: start below a hex-digit boundary
+	store.seq = []uint64{0, 14, 254, 65534}[vChoose("ids_already_used", 4)]
+	base := store.seq
 	h := &Hydro{Map: haxmap.New[string, EventHandler](), store: store}
 	var calls []string
 	n := 0
@@ -186,7 +189,7 @@ func VerifHydro(arg string) {
 				}
 				vAssert("C16/every-uncommitted-event-is-replayed", vHas(calls, "decode:"+e.payload))
 				// removed exactly when its handler succeeded or declared it unnecessary
-				_, stillThere := store.data[string(HydroEvent{ID: vIDOf(e.payload)}.Key())]
+				_, stillThere := store.data[string(HydroEvent{ID: base + vIDOf(e.payload)}.Key())]
 				removedExpected := verdict[e.payload] == "removed"
 				vAssert("C16/removed-iff-handled-or-unnecessary", stillThere == !removedExpected)
 				if removedExpected {
